@@ -60,7 +60,9 @@ template <size_t DIM>
 bool compare(vf::Ctx& c, G<DIM>& g, const Model<DIM>& m, const std::vector<Op>& ops, const char* phase, bool firstAccess = false) {
   bool ok = true;
   if (firstAccess) {   // every cell as the FIRST access after the operation, each on its own copy of the grid (access-order dependence, e.g. a cached index)
-    for (size_t l = 0; l < m.cell.size() && ok; ++l) {
+    // grids above 32 cells: the first-access check visits every 7th cell, shifted by the number of operations (the plain comparison below still reads every cell)
+    const size_t faStride = m.cell.size() > 32 ? 7 : 1;
+    for (size_t l = (m.cell.size() > 32 ? ops.size() % 7 : 0); l < m.cell.size() && ok; l += faStride) {
       G<DIM> copy = g;
       int v = copy(ci<DIM>(unlin<DIM>(l, m.n)));
       if (v != m.cell[l]) {
@@ -215,6 +217,9 @@ const std::vector<Case>& cases(bool th) {
   int m2 = th ? 8 : 4, m3 = th ? 4 : 3;
   for (int x = 1; x <= m2; ++x) for (int y = 1; y <= m2; ++y) v.push_back({1, 2, {x, y, 1}, 0, false, 0, th ? 2 : 1, th ? 0 : 1});
   for (int x = 1; x <= m3; ++x) for (int y = 1; y <= m3; ++y) for (int z = 1; z <= m3; ++z) v.push_back({1, 3, {x, y, z}, 0, false, 0, th ? 2 : 1, th ? 0 : 1});
+  // S1 on elongated / larger grids (rows of 8 cells, z slabs of 32+ cells: block-wise fills) in both tiers
+  for (auto sz : std::vector<std::array<int, 3>>{{8, 1, 1}, {8, 2, 1}, {8, 3, 1}, {1, 8, 1}, {3, 8, 1}, {7, 5, 1}, {5, 8, 1}}) if (!th || sz[0] > 8) v.push_back({1, 2, sz, 0, false, 0, 1, 1});
+  for (auto sz : std::vector<std::array<int, 3>>{{6, 6, 2}, {8, 4, 2}, {2, 2, 8}, {8, 1, 2}}) v.push_back({1, 3, sz, 0, false, 0, 1, 1});
   // S2: 2D sizes 1..4, 3D sizes 1..3, offsets [-(n+1), n+1]
   for (int x = 1; x <= 4; ++x) for (int y = 1; y <= 4; ++y) {
     size_t no = (size_t)(2 * x + 3) * (2 * y + 3);
@@ -252,6 +257,7 @@ std::string vf_describe(const std::string& tier) {
                  : "2D sizes 1..4 per axis, 3D 1..3; offsets per axis in [-(n+1),n+1]; BFS to fixpoint over index-offset states, every offset from every state, cells refilled with unique tags");
   o.str("S2", th ? "2D sizes 1..4, 3D 1..3, all sequences of 3 translations, offsets [-(n+1),n+1], writes {none,single,full} before each translation (3D: writes only for <=8 cells), empty value fresh or default"
                  : "2D sizes 1..4 (depth 3 up to 6 cells, else 2), 3D 1..3 depth 2, offsets [-(n+1),n+1], writes {none,single,full} (3D up to 12 cells), empty value fresh or default");
+  o.str("S1_larger_grids", "also 2D 8x1, 8x2, 8x3, 1x8, 3x8, 7x5, 5x8 (quick; the thorough tier covers all sizes to 8x8) and 3D 6x6x2, 8x4x2, 2x2x8, 8x1x2 (both tiers), offsets [-(n+1),n+1]; above 32 cells the first-access check visits every 7th cell");
   o.str("object_forms", "every explored grid is a copy of its predecessor: alternately copy-constructed, and copy-assigned over a grid that holds other data at another offset");
   o.str("first_access", "S1 and the first translation of S2: every cell read (and written) as the first access after the translation, each on its own copy of the grid");
   o.str("model", "window array: new[i] = old[i+k] if inside else the translation's empty value; accumulated offset mod size");
